@@ -1,6 +1,7 @@
 import ZkElGamal.Driver.Wire
 import ZkElGamal.Driver.Sigma
 import ZkElGamal.Driver.Enc
+import ZkElGamal.Driver.Range
 /-!
 `zkmodel` — the executable model. One op per line on stdin (`<id> <op> <args…>`),
 one result per line on stdout (`<id> <outcome>`); the same lines are run by the
@@ -8,11 +9,28 @@ Rust harness `zkh run` against the real SDK and the two streams are diffed.
 -/
 open Zk Zk.Driver
 
-def execOp (op : String) (args : List String) : String :=
+/-- generators are derived once per process and shared by all range ops -/
+def gensOf (g : List CPt × List CPt) (n : Nat) : List CPt × List CPt := (g.1.take n, g.2.take n)
+
+def execOp (g : Unit → List CPt × List CPt) (op : String) (args : List String) : String :=
   match op with
+  | "rnew" => opRnew (gensOf (g ())) false args
+  | "rprove" => opRnew (gensOf (g ())) true args
+  | "rmprove" => opRmprove (gensOf (g ())) args
+  | "gens" => opGens (gensOf (g ())) args
+  | "verify" =>
+    match args with
+    | [instr, h] =>
+      if instr.startsWith "range" then
+        match ofHex h with
+        | some b => match verifyRange (gensOf (g ())) instr b with
+          | some v => verdict v
+          | none => "bad-op"
+        | none => "bad-op"
+      else opVerify args
+    | _ => "bad-op"
   | "ix" => opIx args
   | "state" => opState args
-  | "verify" => opVerify args
   | "new" => opNew args
   | "prove" => opProve args
   | "mprove" => opMprove args
@@ -25,18 +43,24 @@ def execOp (op : String) (args : List String) : String :=
   | "elg" => opElg args
   | _ => "bad-op"
 
-partial def loop (h : IO.FS.Stream) (out : IO.FS.Stream) : IO Unit := do
+partial def loop (h : IO.FS.Stream) (out : IO.FS.Stream) (cache : IO.Ref (Option (List CPt × List CPt))) : IO Unit := do
   let line ← h.getLine
   if line.isEmpty then return ()
   let toks := (line.trimAscii.toString.splitOn " ").filter (· ≠ "")
   match toks with
   | id :: op :: args =>
-    out.putStrLn s!"{id} {execOp op args}"
+    let needsGens := op == "rnew" || op == "rprove" || op == "rmprove" || op == "gens" ||
+      (op == "verify" && (args.headD "").startsWith "range")
+    if needsGens && (← cache.get).isNone then
+      cache.set (some (concGens 256))
+    let g := (← cache.get).getD ([], [])
+    out.putStrLn s!"{id} {execOp (fun _ => g) op args}"
   | _ => pure ()
-  loop h out
+  loop h out cache
 
 def main : IO Unit := do
   let stdin ← IO.getStdin
   let stdout ← IO.getStdout
-  loop stdin stdout
+  let cache ← IO.mkRef none
+  loop stdin stdout cache
   stdout.flush
